@@ -97,7 +97,38 @@ class Obj:
         return self.impl(*args)
 
 
-KINDS = {"module": lambda n: MODULE_LEVEL[n], "nested": nested, "lambda": lam, "object": Obj}
+def _methods(wrap, takes_self):
+    """a module-level class whose attributes are named like the functions: bound methods, static methods, class methods"""
+    ns = {}
+    for name in IMPL:
+        def make(name=name):
+            if takes_self:
+                def fn(self_or_cls, *args):
+                    LOG.append((name, args))
+                    return IMPL[name](*args)
+            else:
+                def fn(*args):
+                    LOG.append((name, args))
+                    return IMPL[name](*args)
+            fn.__name__ = name
+            return fn
+        ns[name] = wrap(make())
+    return ns
+
+
+Host = type("Host", (), dict(_methods(lambda f: f, True), __module__=__name__))
+for _n in IMPL:
+    getattr(Host, _n).__qualname__ = "Host." + _n
+StaticHost = type("StaticHost", (), dict(_methods(staticmethod, False), __module__=__name__))
+for _n in IMPL:
+    getattr(StaticHost, _n).__qualname__ = "StaticHost." + _n
+ClassHost = type("ClassHost", (), dict(_methods(classmethod, True), __module__=__name__))
+for _n in IMPL:
+    getattr(ClassHost, _n).__func__.__qualname__ = "ClassHost." + _n
+HOST = Host()
+
+KINDS = {"module": lambda n: MODULE_LEVEL[n], "nested": nested, "lambda": lam, "object": Obj,
+         "bound": lambda n: getattr(HOST, n), "static": lambda n: getattr(StaticHost, n), "classmethod": lambda n: getattr(ClassHost, n)}
 
 
 def supply(kind, style, with_size):
